@@ -58,6 +58,8 @@ pub mod bbsplus_message {
             let map_dst = [api_id, CS::MAP_MSG_SCALAR].concat();
             let mut msg_scalars: Vec<Self> = Vec::new();
             for m in messages {
+                #[cfg(zkryptium_verif)]
+                crate::verif_hooks::tick("messages_to_scalar");
                 let scalar = hash_to_scalar::<CS>(m, &map_dst)?;
                 msg_scalars.push(Self { value: scalar })
             }
